@@ -447,9 +447,8 @@ Lemma apply_mss_frame : forall s r,
   s_tx_buffer (tcp_apply_mss s r) = s_tx_buffer s /\
   s_syn_unacked_in_fin_wait (tcp_apply_mss s r) = s_syn_unacked_in_fin_wait s.
 Proof.
-  intros. unfold tcp_apply_mss. destruct (r_max_seg_size r); [|repeat split; apply same_conn_refl].
-  destruct (z =? 0); repeat split; try apply same_conn_refl;
-    try (unfold same_conn; simpl; auto 10).
+  intros. unfold tcp_apply_mss. destruct (r_max_seg_size r) as [z|]; [destruct (z =? 0)|];
+    unfold same_conn; simpl; auto 12.
 Qed.
 
 Lemma transition_cont : forall cx s ip r c al aof t s',
